@@ -949,6 +949,10 @@ class Message:
                 message.iv, decrypted_data = payload_sk.decrypt(crypto)
                 message.encrypted_payloads = cls._parse_payloads(decrypted_data, payload_sk.next_payload_type)
 
+            # with keys, only IKE_SA_INIT messages may travel without a Payload SK
+            elif crypto is not None and message.exchange_type != Message.Exchange.IKE_SA_INIT:
+                raise InvalidSyntax('Message is not protected by a Payload SK')
+
         return message
 
     @staticmethod
